@@ -232,6 +232,11 @@ pub fn hostile_rooted_doc() -> BoxedStrategy<String> {
     vec(hpick(), 1..6).prop_map(|picks| hostile_doc(&picks, true)).boxed()
 }
 
+/// C05's documents with a prolog, CDATA next to character data and prefixed element names: they must come out well-formed too
+fn fam_prolog(_t: Tier) -> BoxedStrategy<Case> {
+    (crate::props::c05::prolog_docs(), gen::cfg_hostile()).prop_map(|(input, cfg)| Case { input, cfg, rooted: Some(true), namespaced: false, fam: "prolog".into() }).boxed()
+}
+
 fn fam_hostile(_t: Tier) -> BoxedStrategy<Case> {
     (vec(hpick(), 1..6), gen::cfg_hostile(), prop::bool::weighted(0.8), crate::props::union::root_attrs(), any::<bool>(), 0u8..24)
         .prop_map(|(picks, cfg, rooted, ra, with_ra, junk)| {
@@ -413,6 +418,7 @@ impl Property for C02 {
             Family::random("hostile", tier.n(16_000, 120_000), fam_hostile),
             Family::random("passthrough", tier.n(6_000, 30_000), fam_passthrough),
             Family::random("lenient", tier.n(1_600, 3000), fam_lenient),
+            Family::random("prolog-and-mixed-content", tier.n(4_000, 20_000), fam_prolog),
             Family::random("non-chars", tier.n(1_500, 8000), fam_nonchars),
             Family::random("docgen", tier.n(8_000, 50_000), fam_docgen),
             Family::fixed("corpus", corpus),
